@@ -382,10 +382,6 @@ func (a *c01Acct) c01AttackRun(t *testing.T, Hk, T, M *c01wire.Key, hInit bool, 
 		return
 	}
 	a.r.Executions++
-	role := "R"
-	if hInit {
-		role = "I"
-	}
 	a.nontrivial(fmt.Sprintf("%s|%s|%s|%s|%v|%s", Hk.Name, T.Name, M.Name, cfg, hInit, v.name))
 	desc["honest_result"] = c01Describe(H)
 	desc["attacker_err"] = fmt.Sprint(at.err)
@@ -427,7 +423,6 @@ func (a *c01Acct) c01AttackRun(t *testing.T, Hk, T, M *c01wire.Key, hInit bool, 
 	if cfg.named() {
 		exp = "names-victim"
 	}
-	_ = role
 	a.r.Outcome(fmt.Sprintf("honest side %s; %s: %s (%s)", exp, v.name, res, c01ErrClass(H.err)))
 	if !viol && Hk.Typ == c01wire.KeyTypes[0] && T.Typ == c01wire.KeyTypes[1] && M.Typ == c01wire.KeyTypes[0] && hInit && cfg.Entry == "T" && (v.honest || len(v.name)%5 == 0) {
 		a.r.Sample(desc)
